@@ -12,7 +12,7 @@ use crate::types::{row_json, V};
 use crate::Ctx;
 use serde_json::json;
 
-pub const ALPHABET: [char; 14] = ['a', 'b', 'c', 'd', 'e', 'f', 'g', 'h', 'i', 'j', 'k', 'l', 'r', 'x'];
+pub const ALPHABET: [char; 16] = ['a', 'b', 'c', 'd', 'e', 'f', 'g', 'h', 'i', 'j', 'k', 'l', 'm', 'n', 'r', 'x'];
 
 pub fn monitors() -> Monitors {
     Monitors { model_eq: true, api_issues: true, ..Default::default() }
@@ -197,7 +197,7 @@ fn run_random(seed: u64, case: u64, n_ops: usize, rep: &mut Report) {
 fn directed(rep: &mut Report, base: &[u8]) {
     // one scenario per defect class ever seen: key-column update to a colliding constant,
     // order-changing key update, delete-then-insert slot reuse with reopen
-    for (i, w) in ["acg", "ach", "abi", "acjra", "aclrc", "abxa", "cgrj", "ab h", "ad", "aerfrk"].iter().enumerate() {
+    for (i, w) in ["acg", "ach", "abi", "acjra", "aclrc", "abxa", "cgrj", "ab h", "ad", "aerfrk", "acm", "acn", "cmr"].iter().enumerate() {
         let word: Vec<char> = w.chars().filter(|c| *c != ' ').collect();
         run_word(base, 1_000_000 + i as u64, &word, rep);
         rep.count("directed_scenarios");
@@ -224,7 +224,7 @@ pub fn run(ctx: &Ctx) -> Report {
         return rep;
     }
     let depth = if ctx.quick() { 4 } else { 5 };
-    let n_random = ctx.budget(600, 8000);
+    let n_random = ctx.budget(3_000, 30_000);
     let seed = ctx.seed;
     let base_ref = &base;
     let mut rep = parallel(ctx.threads, |shard, n| {
